@@ -32,7 +32,7 @@ def _child(task, build):
         return {'q': q, 'error': traceback.format_exc()}
 
 
-def run(tasks, build, jobs=3):
+def run(tasks, build, jobs=3, progress=None):
     """tasks: list of (qualname, contract index, opts). returns results in order"""
     results = [None] * len(tasks)
     pending = list(range(len(tasks)))
@@ -68,4 +68,6 @@ def run(tasks, build, jobs=3):
                 results[i] = json.loads(buf.decode())
             except Exception:
                 results[i] = {'q': tasks[i][0], 'error': 'worker died without output'}
+            if progress:
+                progress(i + 1, len(tasks))
     return results
